@@ -38,7 +38,7 @@ Theorem shared_oracle_model init tlen mtu ses str n0 off0 m rv ops :
 Proof. intros HO Hc. destruct (handover_facts _ _ _ _ _ HO) as (H1 & H2 & H3 & H4 & H5 & H6).
   pose proof HO as (Hg & _ & Hn & Ho & _).
   unfold holds_c01.
-  apply (judge_all_model tlen mtu ses n0 off0 init H1 H2 H3 H4 H5 shared pub_inv shared_flavour_ok m rv ops _ _ spec0).
+  apply (judge_all_model tlen mtu ses n0 off0 init H1 H2 H3 H4 H5 shared spinv shared_flavour_ok m rv ops _ _ spec0).
   - apply init_rep_shared; assumption.
   - unfold sys0_shared. apply (orel0 tlen mtu ses n0 off0 init shared). reflexivity.
   - exact Hc. Qed.
